@@ -66,6 +66,15 @@ HOSTILE_ITEMS = """\
         #[allow(dead_code)] pub mod isize { pub const MIN: u8 = 7; pub const MAX: u8 = 9; }
         #[allow(dead_code)] pub mod usize { pub const MIN: u8 = 7; pub const MAX: u8 = 9; }
         #[allow(dead_code)] pub mod str { pub fn from_utf8() {} }
+        // derive macros imported under the names of the built-in derives (macro namespace)
+        #[allow(unused_imports)] use ::enum_tools::EnumTools as Clone;
+        #[allow(unused_imports)] use ::enum_tools::EnumTools as Copy;
+        #[allow(unused_imports)] use ::enum_tools::EnumTools as Default;
+        #[allow(unused_imports)] use ::enum_tools::EnumTools as PartialEq;
+        #[allow(unused_imports)] use ::enum_tools::EnumTools as Eq;
+        #[allow(unused_imports)] use ::enum_tools::EnumTools as Hash;
+        #[allow(unused_imports)] use ::enum_tools::EnumTools as PartialOrd;
+        #[allow(unused_imports)] use ::enum_tools::EnumTools as Ord;
         #[allow(dead_code)] pub fn transmute() {}
         #[allow(dead_code)] pub fn drop() {}
         #[allow(unused_macros)] macro_rules! Some { ($($t:tt)*) => { compile_error!("user macro Some! used") } }
